@@ -20,12 +20,15 @@ const (
 	sAutoCompact
 	sClean
 	sReopen
+	sCompactRange // arbitrary contiguous range (export shim): makes handles stale by a compaction below the top table
 )
 
 type c09Op struct {
 	Kind int   `json:"op"`
 	H    int   `json:"h"`
 	Txs  []HTx `json:"txs,omitempty"`
+	A    int   `json:"a,omitempty"`
+	B    int   `json:"b,omitempty"`
 }
 
 type c09Case struct {
@@ -59,8 +62,12 @@ func genC09(t *rapid.T) c09Case {
 			for j := 0; j < m; j++ {
 				op.Txs = append(op.Txs, nonEmptyTx(t, o))
 			}
-		case k < 15:
+		case k < 13:
 			op.Kind = sCompactAll
+		case k < 16:
+			op.Kind = sCompactRange
+			op.A = rapid.IntRange(0, 5).Draw(t, "a")
+			op.B = rapid.IntRange(0, 5).Draw(t, "b")
 		case k < 17:
 			op.Kind = sAutoCompact
 		case k < 18:
@@ -245,9 +252,23 @@ func propC09(c c09Case, o *Obs) error {
 			}
 			h.snap = store.Clone()
 			lastChange = "add"
-		case sCompactAll, sAutoCompact, sClean:
+		case sCompactAll, sAutoCompact, sClean, sCompactRange:
 			var err error
 			switch op.Kind {
+			case sCompactRange:
+				n := len(tableNames(h.st, dir))
+				if n == 0 || !reftable.VerifExportAvailable {
+					continue
+				}
+				first, last := op.A%n, op.B%n
+				if first > last {
+					first, last = last, first
+				}
+				var ok bool
+				ok, err = h.st.VerifCompactRange(first, last, nil)
+				if !stale && err == nil && !ok {
+					err = fmt.Errorf("compaction of [%d,%d] reported failure without an error", first, last)
+				}
 			case sCompactAll:
 				if !stale && len(ReadList(dir)) == 0 {
 					continue
